@@ -46,7 +46,7 @@ def run(ctx):
     pres = ctx.run_tlc("MC_PamClient.tla", "MC_PamClient_code.cfg", workers=1, timeout=300)
     ctx.tlc_must_pass(pres, "MC_PamClient_code.cfg")
     edge = next(e for e in pres["edges"] if e["script"]["reply"]["id"] == "NO" and e["script"]["delay"] == "none"
-                and e["script"]["after"] == "close" and not e["script"]["staleErrno"] and e["script"]["reachable"]
+                and e["script"]["after"] == "close" and not e["script"]["staleErrno"] and e["script"]["reachable"] and e["script"]["reads"]
                 and e["script"]["cut"] >= 4)
     cov["pam_encoder_pairs"] = pamfam.encoder_grid(ctx, exe, edge)
     cov["evaluations"] += cov["pam_encoder_pairs"]
